@@ -21,7 +21,7 @@ namespace stack {
 
 using bytes = std::vector< std::uint8_t >;
 
-enum { op_run, op_scan_req, op_connect, op_air_fault, op_central_control, op_central_update, op_central_l2cap, op_app, op_central_terminate, op_count };
+enum { op_run, op_scan_req, op_connect, op_air_fault, op_central_control, op_central_update, op_central_l2cap, op_app, op_central_terminate, op_central_enc, op_count };
 
 // what the world needs to know about / do with the concrete link layer
 struct ll_access
@@ -39,6 +39,13 @@ struct ll_access
     unsigned    white_list_size = 0;
     int         adv_type = 0;               // PDU type code of the (first) advertising type
     unsigned    rx_buffer = 61, tx_buffer = 61;
+    // link encryption (C28): a characteristic value that requires encryption, and the bonds the application's data base holds
+    bool        has_encryption = false;
+    const std::uint8_t* secret = nullptr;
+    std::size_t secret_size = 0;
+    unsigned    secret_handle = 0;
+    struct bond { std::uint16_t ediv; std::uint64_t rand; std::array< std::uint8_t, 16 > key; };
+    std::vector< bond > bonds;
 };
 
 // callbacks of connection_callbacks<> as the application sees them
@@ -49,7 +56,8 @@ struct callback_recorder
     template < class C > void ll_connection_requested( const bluetoe::link_layer::connection_details&, const bluetoe::link_layer::connection_addresses&, C& ) { log += 'R'; }
     template < class C > void ll_connection_established( const bluetoe::link_layer::connection_details&, const bluetoe::link_layer::connection_addresses&, C& ) { log += 'E'; }
     template < class C > void ll_connection_attempt_timeout( C& ) { log += 'T'; }
-    template < class C > void ll_connection_changed( const bluetoe::link_layer::connection_details&, C& ) { log += 'C'; }
+    std::vector< bool > changed_encrypted;      // is_encrypted as reported with every ll_connection_changed
+    template < class C > void ll_connection_changed( const bluetoe::link_layer::connection_details&, C& c ) { log += 'C'; changed_encrypted.push_back( c.security_attributes().is_encrypted ); }
     template < class C > void ll_connection_closed( std::uint8_t reason, C& ) { log += 'X'; closed_reasons.push_back( reason ); }
     template < class C > void ll_version( std::uint8_t, std::uint16_t, std::uint16_t, C& ) { log += 'v'; }
     template < class C > void ll_rejected( std::uint8_t, C& ) { log += 'j'; }
@@ -61,7 +69,7 @@ struct callback_recorder
 inline std::uint16_t rd16( const std::uint8_t* p ) { return static_cast< std::uint16_t >( p[ 0 ] | ( p[ 1 ] << 8 ) ); }
 inline void put16( bytes& b, unsigned v ) { b.push_back( static_cast< std::uint8_t >( v ) ); b.push_back( static_cast< std::uint8_t >( v >> 8 ) ); }
 
-struct ll_pdu { std::uint8_t llid = 1; bytes payload; int tag = 0; bool delivered = false; };
+struct ll_pdu { std::uint8_t llid = 1; bytes payload; int tag = 0; bool delivered = false; int enc = -1; /* -1: as the central's encryption state says, 0 / 1: forced */ };
 
 // ------------------------------------------------------------------------------------------------ central (reference, from the specification)
 struct central_model
@@ -93,6 +101,10 @@ struct central_model
     ll_pdu          inflight;
     std::vector< ll_pdu > received;         // new non-empty PDUs from the peripheral
     unsigned        md_burst = 1;           // packets per event the central is willing to exchange
+    // link encryption
+    bool            tx_enc = false, rx_enc = false, has_key = false;
+    std::array< std::uint8_t, 16 > key{};
+    int             enc_proc = 0;           // 0 idle, 1 LL_ENC_REQ sent, 2 LL_ENC_RSP seen, 3 LL_START_ENC_REQ seen (LL_START_ENC_RSP sent), 10 LL_PAUSE_ENC_REQ sent
 
     unsigned csa1( std::uint64_t counter, const std::uint8_t* map ) const
     {
@@ -209,8 +221,43 @@ private:
     std::deque< expect_rsp > lapsed_optional_;      // optional answers the central stopped waiting for
     bool                tx_starved_since_update_ = false;   // since the last instant based PDU was delivered, an event ended without a free transmit buffer
     bool                last_evt_unacked_ = false;      // the peripheral's last transmitted PDU carried data nothing acknowledged yet
+    // C28: link encryption
+    bool                model_enc_ = false;             // an encryption start procedure with a supplied key completed, no pause since
+    bool                model_enc_seen_ = false;        // ... at some point since the callbacks were looked at the last time
+    // LL_ENC_REQs (key known?) that were delivered; those the link layer has looked at (it answered with LL_ENC_RSP) and that wait for their common
+    // verdict: the link layer answers all requests it handled in one go with one LL_START_ENC_REQ or one reject (a hostile central may pipeline requests)
+    std::deque< bool >  enc_delivered_, enc_batch_;
+    bool enc_known_pending() const
+    {
+        return std::find( enc_delivered_.begin(), enc_delivered_.end(), true ) != enc_delivered_.end() || std::find( enc_batch_.begin(), enc_batch_.end(), true ) != enc_batch_.end();
+    }
+    bool enc_only_unknown_pending() const { return ( !enc_delivered_.empty() || !enc_batch_.empty() ) && !enc_known_pending(); }
+    bool                last_reported_enc_ = false;
+    bool                start_enc_req_seen_ = false;
+    bool                tx_session_legit_ = false;      // the peripheral's transmit encryption was started by such a procedure
+    bool                enc_started_this_event_ = false;
+    bool                rx_session_legit_ = false, prev_rx_enc_ = false;
+    unsigned            enc_legit_starts_ = 0, enc_reported_ = 0;
+    bool                start_committed_ = false;
+    unsigned            prev_rx_enc_starts_ = 0;
+    std::deque< bool >  att_req_while_enc_;             // for every ATT PDU that was delivered and is not answered yet: did it arrive over the encrypted link?
+    bool                att_rsp_seen_ = false, att_rsp_sn_ = false;
+    int                 reject_due_in_ = -1;            // undisturbed events left until the reject of an unknown key is due
+    unsigned            legit_secret_writes_ = 0;
+    unsigned            write_seq_ = 0;
+    std::size_t         changed_checked_ = 0;
+    bytes               secret_snapshot_;
+    void enc_op( const sim::Op& op );
+    bool enc_handle_control( const ll_pdu& p );
+    void enc_pdu_delivered( const ll_pdu& p, bool pdu_enc );
+    void enc_check_outgoing( const bytes& rsp );
+    void enc_after_event( bool undisturbed );
+public:
+    unsigned            enc_completed = 0, enc_rejected = 0;
+private:
     std::set< int >     remote_terminate_reasons_;      // reasons of the LL_TERMINATE_IND PDUs the central sent on this connection: the peripheral reports them as its closing reason
     bool                map_update_sent_ = false;       // a channel map update was sent on this connection
+    std::int64_t        timeout_before_update_us_ = 0, update_applied_local_us_ = -1;
     int                 directed_target_ = -1;          // device the application named last as target of directed advertising
     bool                raw_instant_pdu_sent_ = false;  // on this connection the central sent an instant based PDU with arbitrary content
 
@@ -328,6 +375,9 @@ inline void world::run( const sim::Plan& plan )
         case op_app: do_app( op ); break;
         case op_central_terminate:
             if ( c_.connected ) { queue_central_control( 0x02, bytes{ static_cast< std::uint8_t >( 0x13 ) } ); expected_close_reason_ = 0x13; }
+            break;
+        case op_central_enc:
+            if ( c_.connected && ll_.has_encryption ) enc_op( op );
             break;
         }
         after_callbacks( "op" );
@@ -518,7 +568,10 @@ inline void world::advertising_activity()
         app_procedure_started_local_us_ = -1; app_version_req_ = false; app_param_req_ = app_phy_req_ = 0;
         local_disconnect_requested_ = false;
         expected_close_reason_ = -1;
-        raw_instant_pdu_sent_ = false; tx_starved_since_update_ = false; remote_terminate_reasons_.clear(); map_update_sent_ = false;
+        raw_instant_pdu_sent_ = false; tx_starved_since_update_ = false; remote_terminate_reasons_.clear(); map_update_sent_ = false; update_applied_local_us_ = -1;
+        model_enc_ = model_enc_seen_ = false; enc_delivered_.clear(); enc_batch_.clear(); last_reported_enc_ = false; start_enc_req_seen_ = false; tx_session_legit_ = false; enc_started_this_event_ = false; rx_session_legit_ = prev_rx_enc_ = false; enc_legit_starts_ = enc_reported_ = 0; start_committed_ = false; prev_rx_enc_starts_ = r_.rx_enc_starts; changed_checked_ = rec_.changed_encrypted.size(); att_req_while_enc_.clear(); att_rsp_seen_ = false;
+        reject_due_in_ = -1; legit_secret_writes_ = 0;
+        if ( ll_.secret ) secret_snapshot_.assign( ll_.secret, ll_.secret + ll_.secret_size );
         (void)cb_before;
     }
     snapshot_adv_schedule();
@@ -727,6 +780,7 @@ inline void world::central_advance_event()
         {
         case 0:
             next += static_cast< std::int64_t >( static_cast< long double >( c_.upd.win_offset_us ) * 1000.0L * k ) + c_.upd.jitter_ns;
+            timeout_before_update_us_ = c_.timeout_us; update_applied_local_us_ = to_local_us( next );
             c_.interval_us = c_.upd.interval_us; c_.latency = c_.upd.latency; c_.timeout_us = c_.upd.timeout_us;
             break;
         case 1: std::memcpy( c_.chm, c_.upd.chm, 5 ); break;
@@ -863,6 +917,7 @@ inline void world::connection_event_activity()
             // ---- the exchange
             connection_event_events evts;
             unsigned packets = 0;
+            bool undecodable_rsp = false;
             std::int64_t t = rx_local;
             bool more = true;
             bool first = true;
@@ -880,8 +935,14 @@ inline void world::connection_event_activity()
                 write_buffer trans{ nullptr, 0 };
                 const bool fits = buf.size >= 2 + c_.inflight.payload.size();
                 t += pdu_duration_us( c_.inflight.payload.size() );
-                if ( crc_error && first )
+                // link encryption: a non empty PDU is understood if both sides agree on whether it is encrypted and, if so, on the key
+                const bool pdu_enc   = ll_.has_encryption && !c_.inflight.payload.empty() && ( c_.inflight.enc == -1 ? c_.tx_enc : c_.inflight.enc == 1 );
+                const bool decodable = !ll_.has_encryption || c_.inflight.payload.empty()
+                                    || ( pdu_enc == r_.rx_enc && ( !pdu_enc || ( c_.has_key && r_.key_set && c_.key == r_.enc_key ) ) );
+                if ( getenv( "STACK_TRACE_AIR" ) ) res_.note( "    c->p len %zu enc %d decodable %d buf %zu (radio rx_enc %d tx_enc %d key %d)", c_.inflight.payload.size(), pdu_enc, decodable, (std::size_t)buf.size, r_.rx_enc, r_.tx_enc, r_.key_set );
+                if ( ( crc_error && first ) || !decodable )
                 {
+                    if ( !decodable ) { res_.fault( "c2p_mic_failure" ); undecodable_rsp = true; }
                     trans = r_.buf_next_transmit();
                     evts.error_occured = true;
                 }
@@ -903,6 +964,7 @@ inline void world::connection_event_activity()
                     if ( !c_.inflight.delivered )
                     {
                         c_.inflight.delivered = true;
+                        if ( ll_.has_encryption ) enc_pdu_delivered( c_.inflight, pdu_enc );
                         // an instant based PDU that reaches the peripheral when its instant cannot be met any more
                         if ( c_.upd.tag > 0 && upd_pdu_tag_ != 0 && c_.inflight.tag == upd_pdu_tag_ )
                         {
@@ -923,6 +985,13 @@ inline void world::connection_event_activity()
                 t += 150 + pdu_duration_us( rsp[ 1 ] ) + 150;
                 bool p_md = false;
                 if ( fault == 3 ) { evts.unacknowledged_data = rsp[ 1 ] != 0; break; }
+                if ( ll_.has_encryption )
+                {
+                    enc_check_outgoing( rsp );
+                    const bool p_enc = r_.tx_enc && rsp[ 1 ] != 0;
+                    const bool central_understands = rsp[ 1 ] == 0 || ( p_enc == c_.rx_enc && ( !p_enc || ( c_.has_key && r_.key_set && c_.key == r_.enc_key ) ) );
+                    if ( !central_understands ) { res_.fault( "p2c_mic_failure" ); evts.unacknowledged_data = true; undecodable_rsp = true; break; }
+                }
                 c_.last_heard_ns = c_.anchor_ns;
                 c_.heard_once = true;
                 central_process( rsp, p_md );
@@ -947,6 +1016,7 @@ inline void world::connection_event_activity()
             if ( evts.error_occured ) { must_listen_next_ = true; listen_reason_event_ = 6; }
             if ( c_.connected ) central_advance_event();
             r_.cb_end_event( evts );
+            if ( ll_.has_encryption ) enc_after_event( fault == 0 && !undecodable_rsp && !c_.upd.active && late_update_kind_ < 0 && !raw_instant_pdu_sent_ );
             // (also right after the instant: the central has applied the update by now, the peripheral may still have the PDU in its receive ring)
             if ( ( c_.upd.active || late_update_kind_ >= 0 || ( c_.upd.tag > 0 && c_.abs_counter <= upd_instant_ + 1 ) ) && ll_.tx_allocatable && !ll_.tx_allocatable() ) { tx_starved_since_update_ = true; res_.probe( "no_transmit_buffer_while_instant_pending" ); }
             // ---- C27: the request in progress is answered within a few undisturbed events (a pending instant may hold answers back until the instant)
@@ -1006,6 +1076,7 @@ inline void world::central_handle_control( const ll_pdu& p )
 {
     const std::uint8_t opcode = p.payload[ 0 ];
     res_.note( "central got control 0x%02x len %zu", opcode, p.payload.size() );
+    if ( ll_.has_encryption && enc_handle_control( p ) ) return;
     // peripheral initiated procedures
     if ( opcode == 0x0c && app_version_req_ && !( !expected_rsp_.empty() && current_acked_ && expected_rsp_.front().opcode == 0x0c
             && std::find( expected_rsp_.front().allowed.begin(), expected_rsp_.front().allowed.end(), 0x0c ) != expected_rsp_.front().allowed.end() ) )
@@ -1027,9 +1098,14 @@ inline void world::central_handle_control( const ll_pdu& p )
         return;
     }
     // the answer to the request in progress?
-    const bool answers_current = !expected_rsp_.empty() && current_acked_
+    // (a LL_UNKNOWN_RSP names the PDU it answers: the request in progress if it names it, an optional answer that was given up if it names that,
+    // the request in progress again if any answer will do for it)
+    bool answers_current = !expected_rsp_.empty() && current_acked_
         && std::find( expected_rsp_.front().allowed.begin(), expected_rsp_.front().allowed.end(), opcode ) != expected_rsp_.front().allowed.end()
         && ( opcode != 0x07 || expected_rsp_.front().opcode >= 0xfe || ( p.payload.size() == 2 && p.payload[ 1 ] == expected_rsp_.front().opcode ) );
+    if ( answers_current && opcode == 0x07 && p.payload.size() == 2 && !expected_rsp_.front().payload.empty() && p.payload[ 1 ] != expected_rsp_.front().payload[ 0 ] )
+        for ( const auto& l : lapsed_optional_ )
+            if ( std::find( l.allowed.begin(), l.allowed.end(), 0x07 ) != l.allowed.end() && p.payload[ 1 ] == l.payload[ 0 ] ) answers_current = false;
     // an optional answer that took its time (the peripheral's transmit queue was busy)
     for ( auto l = lapsed_optional_.begin(); !answers_current && l != lapsed_optional_.end(); ++l )
         if ( std::find( l->allowed.begin(), l->allowed.end(), opcode ) != l->allowed.end() && ( opcode != 0x07 || ( p.payload.size() == 2 && p.payload[ 1 ] == l->payload[ 0 ] ) ) )
@@ -1068,6 +1144,197 @@ inline void world::central_handle_control( const ll_pdu& p )
             violate( "C27", "feature-rsp-content", "feature-rsp-content", "LL_FEATURE_RSP %s is not the intersection with the requested features 0x%02x", sim::hex( p.payload ).c_str(), theirs );
     }
     if ( opcode == 0x0c ) { if ( version_seen_from_peripheral_ ) violate( "C27", "second-version-ind", "second-version-ind", "a second LL_VERSION_IND was sent on this connection" ); version_seen_from_peripheral_ = true; }
+}
+
+// ------------------------------------------------------------------------------------------------ link encryption (C28)
+inline void world::enc_op( const sim::Op& op )
+{
+    // a0: 0 start procedure with a bonded key, 1 the same but the central holds another key, 2 LL_ENC_REQ for an unknown EDIV/Rand, 3 LL_START_ENC_RSP out of the blue,
+    //     4 pause procedure, 5 LL_PAUSE_ENC_RSP out of the blue, 6 read the protected value, 7 write the protected value
+    // a1: selects the bond / 0 as the encryption state says, 1 forced plaintext, 2 forced encrypted
+    const int kind = static_cast< int >( ( ( op.arg( 0 ) % 8 ) + 8 ) % 8 );
+    const int force = static_cast< int >( ( ( op.arg( 1 ) % 3 ) + 3 ) % 3 );
+    // the encryption PDUs do not go through the request / response book keeping of C27
+    if ( kind < 6 ) control_checks_excused_ = true;
+    auto push_control = [&]( bytes payload, int enc ) { ll_pdu p; p.llid = 3; p.payload = std::move( payload ); p.tag = next_tag_++; p.enc = enc; c_.txq.push_back( p ); };
+    switch ( kind )
+    {
+    case 0: case 1: case 2: {
+        bytes p{ 0x03 };
+        std::uint16_t ediv; std::uint64_t rand;
+        if ( kind == 2 || ll_.bonds.empty() ) { ediv = static_cast< std::uint16_t >( 0x4000 + op.arg( 1 ) ); rand = 0x0102030405060708ull + static_cast< std::uint64_t >( op.arg( 2 ) ); c_.has_key = false; }
+        else
+        {
+            const auto& b = ll_.bonds[ static_cast< std::size_t >( ( ( op.arg( 1 ) % static_cast< std::int64_t >( ll_.bonds.size() ) ) + static_cast< std::int64_t >( ll_.bonds.size() ) ) % static_cast< std::int64_t >( ll_.bonds.size() ) ) ];
+            ediv = b.ediv; rand = b.rand; c_.key = b.key; c_.has_key = true;
+            if ( kind == 1 ) c_.key[ 3 ] ^= 0x40;
+        }
+        for ( int i = 0; i != 8; ++i ) p.push_back( static_cast< std::uint8_t >( rand >> ( 8 * i ) ) );
+        put16( p, ediv );
+        for ( int i = 0; i != 12; ++i ) p.push_back( static_cast< std::uint8_t >( 0x70 + i ) );      // SKDm, IVm
+        push_control( p, -1 );
+        c_.enc_proc = 1;
+        res_.note( "central starts encryption (%s)", kind == 0 ? "bonded key" : kind == 1 ? "bonded EDIV/Rand, wrong key" : "unknown EDIV/Rand" );
+        break; }
+    case 3: push_control( bytes{ 0x06 }, force == 0 ? -1 : force - 1 ); res_.note( "central sends LL_START_ENC_RSP out of order" ); break;
+    case 4: push_control( bytes{ 0x0a }, -1 ); c_.enc_proc = 10; res_.note( "central pauses encryption" ); break;
+    case 5: push_control( bytes{ 0x0b }, force == 0 ? -1 : force - 1 ); res_.note( "central sends LL_PAUSE_ENC_RSP out of order" ); break;
+    case 6: {
+        bytes f; put16( f, 3 ); put16( f, 4 ); f.push_back( 0x0a ); put16( f, ll_.secret_handle );
+        ll_pdu p; p.llid = 2; p.payload = f; c_.txq.push_back( p );
+        break; }
+    default: {
+        bytes f; put16( f, 3 + static_cast< unsigned >( ll_.secret_size ) ); put16( f, 4 ); f.push_back( 0x12 ); put16( f, ll_.secret_handle );
+        ++write_seq_;
+        for ( std::size_t i = 0; i != ll_.secret_size; ++i ) f.push_back( static_cast< std::uint8_t >( 0x80 + ( ( write_seq_ * 7 + i * 13 ) & 0x7f ) ) );
+        f[ 7 ] = static_cast< std::uint8_t >( write_seq_ ); f[ 8 ] = static_cast< std::uint8_t >( 0xe0 | ( write_seq_ >> 8 ) );
+        ll_pdu p; p.llid = 2; p.payload = f; c_.txq.push_back( p );
+        break; }
+    }
+}
+
+inline bool world::enc_handle_control( const ll_pdu& p )
+{
+    const std::uint8_t opcode = p.payload[ 0 ];
+    const std::size_t  len    = p.payload.size();
+    auto push_control = [&]( bytes payload, int enc ) { ll_pdu q; q.llid = 3; q.payload = std::move( payload ); q.tag = next_tag_++; q.enc = enc; c_.txq.push_front( q ); };
+    if ( opcode == 0x04 && len == 13 )
+    {
+        if ( c_.enc_proc == 1 ) c_.enc_proc = 2;
+        if ( !enc_delivered_.empty() ) { enc_batch_.push_back( enc_delivered_.front() ); enc_delivered_.pop_front(); }
+        return true;
+    }
+    if ( opcode == 0x05 && len == 1 )
+    {
+        if ( std::find( enc_batch_.begin(), enc_batch_.end(), true ) == enc_batch_.end() )
+            violate( "C28", "start-enc-req-without-key", !enc_batch_.empty() ? "start-enc-req-without-key unknown-ediv-rand" : "start-enc-req-without-key no-enc-req",
+                     "the peripheral sent LL_START_ENC_REQ although %s", !enc_batch_.empty() ? "neither security manager nor bond data base holds a key for the EDIV/Rand of any LL_ENC_REQ it has answered with LL_ENC_RSP since its last verdict"
+                     : "no LL_ENC_REQ waits for its verdict" );
+        else
+            start_enc_req_seen_ = true;
+        enc_batch_.clear();
+        reject_due_in_ = enc_only_unknown_pending() ? 10 + static_cast< int >( c_.latency ) : -1;
+        if ( c_.enc_proc == 1 || c_.enc_proc == 2 ) { c_.enc_proc = 3; c_.tx_enc = c_.rx_enc = true; push_control( bytes{ 0x06 }, -1 ); }
+        return true;
+    }
+    if ( opcode == 0x06 && len == 1 )
+    {
+        if ( c_.enc_proc == 3 ) { c_.enc_proc = 0; ++enc_completed; res_.probe( "encryption_started" ); }
+        return true;
+    }
+    if ( ( ( opcode == 0x0d && len == 2 ) || ( opcode == 0x11 && len == 3 && p.payload[ 1 ] == 0x03 ) ) && ( c_.enc_proc == 1 || c_.enc_proc == 2 || !enc_delivered_.empty() || !enc_batch_.empty() ) )
+    {
+        if ( c_.enc_proc == 1 || c_.enc_proc == 2 ) c_.enc_proc = 0;
+        ++enc_rejected;
+        res_.probe( std::find( enc_batch_.begin(), enc_batch_.end(), true ) != enc_batch_.end() ? "encryption_with_known_key_rejected" : "encryption_with_unknown_key_rejected" );
+        enc_batch_.clear();
+        reject_due_in_ = enc_only_unknown_pending() ? 10 + static_cast< int >( c_.latency ) : -1;
+        return true;
+    }
+    if ( opcode == 0x0b && len == 1 )
+    {
+        if ( c_.enc_proc == 10 ) { c_.enc_proc = 0; c_.tx_enc = c_.rx_enc = false; push_control( bytes{ 0x0b }, 0 ); res_.probe( "encryption_paused" ); }
+        return true;
+    }
+    return false;
+}
+
+inline void world::enc_pdu_delivered( const ll_pdu& p, bool pdu_enc )
+{
+    if ( p.llid == 3 )
+    {
+        const std::uint8_t opcode = p.payload[ 0 ];
+        const std::size_t  len    = p.payload.size();
+        if ( opcode == 0x03 && len == 23 )
+        {
+            std::uint64_t rand = 0;
+            for ( int i = 0; i != 8; ++i ) rand |= static_cast< std::uint64_t >( p.payload[ 1 + static_cast< std::size_t >( i ) ] ) << ( 8 * i );
+            const std::uint16_t ediv = rd16( &p.payload[ 9 ] );
+            bool known = false;
+            for ( const auto& b : ll_.bonds ) if ( b.ediv == ediv && b.rand == rand ) known = true;
+            enc_delivered_.push_back( known );
+            start_committed_ = false;      // a new procedure
+            reject_due_in_ = enc_known_pending() ? -1 : 10 + static_cast< int >( c_.latency );
+        }
+        else if ( opcode == 0x06 && len == 1 )
+        {
+            // (the peripheral switches its transmitter to encryption when it handles this PDU, after the exchange that delivers it)
+            // it completes the procedure if the peripheral has committed its LL_START_ENC_REQ (for a request with a known key) before
+            // (the radio is told to receive encrypted at that moment; whether this PDU can be decoded at all is the air's business)
+            if ( start_committed_ ) { start_committed_ = false; if ( !model_enc_ ) ++enc_legit_starts_; model_enc_ = model_enc_seen_ = true; enc_started_this_event_ = true; start_enc_req_seen_ = false; }
+        }
+        else if ( ( opcode == 0x0a || opcode == 0x0b ) && len == 1 )
+            model_enc_ = false;
+    }
+    else if ( p.llid == 2 && p.payload.size() >= 5 && rd16( &p.payload[ 2 ] ) == 4 && rd16( &p.payload[ 0 ] ) + 4u == p.payload.size() )
+    {
+        // the server answers ATT PDUs in the order they arrive (everything but a confirmation or a write command gets an answer)
+        const std::uint8_t att = p.payload[ 4 ];
+        if ( att != 0x1e && att != 0x52 && att != 0xd2 ) att_req_while_enc_.push_back( model_enc_ );
+        if ( p.payload[ 4 ] == 0x12 && p.payload.size() >= 7 && rd16( &p.payload[ 5 ] ) == ll_.secret_handle && model_enc_ ) ++legit_secret_writes_;
+    }
+}
+
+inline void world::enc_check_outgoing( const bytes& rsp )
+{
+    if ( !r_.tx_enc ) tx_session_legit_ = false;
+    // retransmissions (same sequence number as the PDU sent before) are not looked at twice
+    const bool sn = ( rsp[ 0 ] & 8 ) != 0;
+    const bool is_new = !att_rsp_seen_ || sn != att_rsp_sn_;
+    att_rsp_seen_ = true; att_rsp_sn_ = sn;
+    if ( !is_new ) return;
+
+    if ( rsp[ 1 ] == 0 || ( rsp[ 0 ] & 3 ) != 2 || rsp.size() < 7 || rd16( &rsp[ 4 ] ) != 4 ) return;
+    // a new ATT PDU of the server: an answer unless it is a notification or indication
+    const std::uint8_t att = rsp[ 6 ];
+    if ( att == 0x1b || att == 0x1d ) return;
+    bool request_while_enc = model_enc_;
+    if ( !att_req_while_enc_.empty() ) { request_while_enc = att_req_while_enc_.front(); att_req_while_enc_.pop_front(); }
+    if ( !ll_.secret || rsp.size() < 2 + ll_.secret_size || std::search( rsp.begin() + 2, rsp.end(), ll_.secret, ll_.secret + ll_.secret_size ) == rsp.end() ) return;
+    res_.probe( "protected_value_read" );
+    // (a value that was read over the encrypted link and leaves the transmit ring after a local disconnect() switched the encryption off is outside the property; counted only)
+    if ( !r_.tx_enc ) res_.probe( "protected_value_read_encrypted_but_sent_after_encryption_was_switched_off" );
+    if ( !request_while_enc )
+        violate( "C28", "protected-value-exposed", "protected-value-exposed", "the peripheral answered with %s, which contains the value of the characteristic that requires encryption, although the request arrived while the link "
+                 "was not encrypted (no encryption start procedure with a supplied key completed, or paused since)", sim::hex( rsp ).c_str() );
+}
+
+inline void world::enc_after_event( bool undisturbed )
+{
+    // callbacks: encrypted is only reported after a proper procedure
+    // (the link layer may handle the PDUs that complete a procedure much later than they were received, e.g. behind a pending instant:
+    // every report "encrypted" needs a completed procedure of its own, whenever that was)
+    for ( ; changed_checked_ < rec_.changed_encrypted.size(); ++changed_checked_ )
+    {
+        const bool now = rec_.changed_encrypted[ changed_checked_ ];
+        const bool turned_on = now && !last_reported_enc_;
+        last_reported_enc_ = now;
+        // (after a local disconnect() the termination procedure is all that is left; what a central does to the encryption meanwhile is not judged)
+        if ( turned_on && ++enc_reported_ > enc_legit_starts_ && !local_disconnect_requested_ )
+            violate( "C28", "reported-encrypted", "reported-encrypted", "ll_connection_changed() reports the link as encrypted, but no encryption start procedure with a supplied key completed (LL_ENC_REQ with a known key, LL_START_ENC_REQ from the peripheral, encrypted LL_START_ENC_RSP from the central)" );
+    }
+    model_enc_seen_ = model_enc_;
+    // the receiver is switched to encryption together with LL_START_ENC_REQ: legitimate if a request with a known key waits for its answer
+    if ( r_.rx_enc_starts != prev_rx_enc_starts_ ) { prev_rx_enc_starts_ = r_.rx_enc_starts; start_committed_ = enc_known_pending(); }
+    if ( r_.rx_enc && !prev_rx_enc_ ) rx_session_legit_ = enc_known_pending();
+    if ( !r_.rx_enc ) rx_session_legit_ = false;
+    prev_rx_enc_ = r_.rx_enc;
+    if ( enc_started_this_event_ && r_.tx_enc ) { tx_session_legit_ = true; enc_started_this_event_ = false; }
+    // the protected value only changes by a write that arrived over the encrypted link
+    if ( ll_.secret && !std::equal( secret_snapshot_.begin(), secret_snapshot_.end(), ll_.secret ) )
+    {
+        res_.probe( "protected_value_written" );
+        if ( legit_secret_writes_ ) --legit_secret_writes_;
+        else violate( "C28", "protected-value-written", "protected-value-written", "the value of the characteristic that requires encryption changed to %s by a write that did not arrive over an encrypted link", sim::hex( ll_.secret, ll_.secret_size ).c_str() );
+        secret_snapshot_.assign( ll_.secret, ll_.secret + ll_.secret_size );
+    }
+    // an encryption request for an unknown key is rejected
+    if ( local_disconnect_requested_ ) reject_due_in_ = -1;      // the termination procedure is all that is left
+    if ( reject_due_in_ > 0 && undisturbed && ( !ll_.tx_allocatable || ll_.tx_allocatable() ) && --reject_due_in_ == 0 )
+    {
+        violate( "C28", "unknown-key-not-rejected", "unknown-key-not-rejected", "LL_ENC_REQ for an EDIV/Rand nobody holds a key for was neither answered with LL_REJECT_IND nor LL_REJECT_EXT_IND within %u undisturbed connection events", 10 + c_.latency );
+        reject_due_in_ = -1;
+    }
 }
 
 inline void world::do_app( const sim::Op& op )
@@ -1176,6 +1443,8 @@ inline void world::after_callbacks( const char* )
                 std::int64_t need = static_cast< std::int64_t >( c_.timeout_us );
                 // a connection update the peripheral got but the central did not live to apply: the peripheral is right to use its timeout from the instant on
                 if ( c_.upd.kind == 0 && c_.upd.tag > 0 && ( c_.upd.active || !c_.connected ) ) need = std::min< std::int64_t >( need, c_.upd.timeout_us );
+                // nothing was received since the central applied a connection update: the old supervision timeout may have elapsed before the instant
+                if ( update_applied_local_us_ >= 0 && last_valid_rx_local_us_ < update_applied_local_us_ ) need = std::min< std::int64_t >( need, timeout_before_update_us_ );
                 // the peripheral closes when the event at which the timeout is reached cannot be met: that is known at the start of that event's receive window,
                 // which is opened early by the combined clock accuracy over the silent time (neither side can measure the timeout more precisely than that)
                 const std::int64_t clock_tolerance = silent * static_cast< std::int64_t >( ll_.own_sca_ppm + c_.sca_ppm ) / 1000000;
